@@ -493,7 +493,7 @@ int main(int argc, char** argv) {
     direct::load();
     if (args.mode == "replay") { replay(); return 0; }
     vh::Rng g(args.seed * 7919 + 31);
-    const bool big = args.n > 500;
+    const bool big = args.n > 5000;
     // ---- fixed records
     caseKATP();
     if (direct::ok) caseKAT(); else vh::D("sfmt_direct.unavailable");
